@@ -1,25 +1,29 @@
 /*
  * C13 - WAV headers round-trip and correctly describe the file they head.
  *
- * Two binaries are built from this file (see bin/checks.d/C13.py):
+ * Two binaries are built from this file (see bin/checks.d/C13.py). The librfn sources are linked as objects of their
+ * own (lib=[pack.c, util.c, string.c, wavheader.c]); only the public header is included here.
  *
  * (1) default: Engine A (DESIGN.md section 2.1 / section 4 C13, encode-first). Explicit-state
  *     BFS with vx_bfs over the state graph of the two mutators of the real wavheader.c:
  *        fill(0x00|0xff|0x55)             what the structure held beforehand (first step only)
- *        init(rate, channels, format)     rate in {1,8000,44100,192000}, channels in {1,2,6,255,32767},
- *                                         S16LE / S32LE / FLOAT  (thorough adds rates 96000, 2^31-1 and
- *                                         channel counts 3, 8, 16383)
- *        set_num_frames(n)                n in {0,1,2,1000, the largest n that still fits, that n + 1}
- *                                         (thorough adds 3, 65535, 65536 and the largest n - 1)
+ *        init(rate, channels, format)     rate in c13_rates, channels in c13_chans (both sides of the powers of two a
+ *                                         rate, a channel count, channels x width or bits x channels could be cut to),
+ *                                         S16LE / S32LE / FLOAT
+ *        set_num_frames(n)                n in {0,1,2,1000,65535,65536,65537,2^24, the largest n that still fits,
+ *                                         that n + 1} (thorough adds 3, 255, 256, 257, 2^24+1 and the largest n - 1)
  *     Combinations whose sizes do not fit their fields (16-bit block alignment, 32-bit byte
- *     rate / data size / RIFF size) are generated and skipped by the scope guard, counted.
+ *     rate / data size / RIFF size) are generated and skipped by the scope guard, counted. The header length that
+ *     enters the RIFF-size limit is the length the real encoder emits for the header at hand, not a constant.
  *     The search runs to a fixpoint, i.e. it covers histories of every length over this
  *     alphabet. On EVERY reached state the oracle of the statement is evaluated against a
- *     model that is nothing but the arguments of the last init and the last frame count:
- *        validate == 0; decode(encode(h)) == h in every field and the same length;
+ *     model that is nothing but the arguments of the last init and the last frame count. The structure is copied
+ *     first: the clauses are judged on the header as init/set_num_frames left it, and the API functions that take a
+ *     non-const pointer work on copies, so an observation can neither repair nor disturb the explored state:
+ *        validate == 0; decode(encode(h)) == h over the WHOLE structure (every named field, and every other byte of
+ *        the structure that is not padding) and the same length;
  *        RIFF size == encoded length - 8 + data size; data size == frames * block_align;
- *        block_align / byte_rate / bits_per_sample / channels / rate / format follow from
- *        the arguments.
+ *        block_align / byte_rate / bits_per_sample / channels / rate follow from the arguments.
  *     A violating state is still expanded (the model stays well defined), and violations are
  *     grouped into coarse classes (wav_common.h) whose first - shortest - history is the
  *     signature.
@@ -32,11 +36,10 @@
  */
 #include "vx.h"
 #include <stddef.h>
+#include <stdio_ext.h>
 
-#include "pack.c"
-#include "util.c"
-#include "string.c"
-#include "wavheader.c"
+#include <librfn/time.h>
+#include <librfn/wavheader.h>
 
 uint32_t time_now(void) { return 0; }	/* referenced by util.c (ratelimit_check), never called here */
 
@@ -46,58 +49,82 @@ uint32_t time_now(void) { return 0; }	/* referenced by util.c (ratelimit_check),
 /* ===================================================================== (1) BFS */
 
 /* the first QRATE / QCH / QFR entries are the quick alphabet, the rest is added by the thorough tier; operation
- * numbers are the same in both tiers so that a replay file means the same history under either */
-static const int rates[] = { 1, 8000, 44100, 192000, 96000, 2147483647 };
-static const int chans[] = { 1, 2, 6, 255, 32767, 3, 8, 16383 };
-static const rf_wavheader_format_t fmts[] = { RF_WAVHEADER_S16LE, RF_WAVHEADER_S32LE, RF_WAVHEADER_FLOAT };
-static const char *fmtname[] = { "S16LE", "S32LE", "FLOAT" };
-static const uint8_t fills[] = { 0x00, 0xff, 0x55 };
-enum { FR_0, FR_1, FR_2, FR_1000, FR_MAXFIT, FR_OVER, FR_3, FR_65535, FR_65536, FR_MAXFIT_1, FR_KINDS };
-static const char *frname[] = { "0", "1", "2", "1000", "max-fit", "max-fit+1", "3", "65535", "65536", "max-fit-1" };
-#define NRATE 6
-#define NCH 8
-#define QRATE 4
-#define QCH 5
-#define QFR 6
+ * numbers are the same in both tiers so that a replay file means the same history under either.
+ * rates: 1, the usual ones, both sides of 2^16, one above 2^18 (and above any "sane" audio rate), one above 2^24; thorough
+ *        adds 96000, 2^18, 2^24-1, 2^30, 2^31-1.
+ * channels: 1, 2, 6, 8; 127/128 (x2 bytes = 2^8), 255/256 (2^8), 2048 and 4096 (x32 resp. x16 bits = 2^16), 16383 (the most
+ *        a 4-byte format fits), 32767 (the most a 2-byte format fits); thorough adds 3, 63/64 (x4 bytes = 2^8), 257,
+ *        2047, 4095, 8191/8192, 16384, 32768 (fits no format: scope guard). */
+static const int c13_rates[] = { 1, 8000, 44100, 192000, 65535, 65536, 768000, 16777217,
+				 96000, 262144, 16777215, 1073741824, 2147483647 };
+static const int c13_chans[] = { 1, 2, 6, 255, 32767, 8, 127, 128, 256, 2048, 4096, 16383,
+				 3, 63, 64, 257, 2047, 4095, 8191, 8192, 16384, 32768 };
+static const rf_wavheader_format_t c13_fmts[] = { RF_WAVHEADER_S16LE, RF_WAVHEADER_S32LE, RF_WAVHEADER_FLOAT };
+static const char *c13_fmtname[] = { "S16LE", "S32LE", "FLOAT" };
+static const uint8_t c13_fills[] = { 0x00, 0xff, 0x55 };
+enum { FR_0, FR_1, FR_2, FR_1000, FR_MAXFIT, FR_OVER, FR_65535, FR_65536, FR_65537, FR_2P24,
+       FR_3, FR_MAXFIT_1, FR_255, FR_256, FR_257, FR_2P24_1, FR_KINDS };
+static const char *c13_frname[] = { "0", "1", "2", "1000", "max-fit", "max-fit+1", "65535", "65536", "65537", "16777216",
+				    "3", "max-fit-1", "255", "256", "257", "16777217" };
+#define NRATE ((int)(sizeof(c13_rates) / sizeof(c13_rates[0])))
+#define NCH ((int)(sizeof(c13_chans) / sizeof(c13_chans[0])))
+#define QRATE 8
+#define QCH 12
+#define QFR 10
 #define NFMT 3
 #define NFILL 3
 #define OP_INIT0 NFILL
 #define OP_FRAMES0 (OP_INIT0 + NRATE * NCH * NFMT)
 #define NOPS (OP_FRAMES0 + FR_KINDS)
+#define C13_ENCCAP 256			/* room offered to the encoder; every header of the grammar without a skipped extension is <= 80 bytes */
 
-static struct live {
+static struct c13_live {
 	uint8_t pre[16];
 	rf_wavheader_t h;
 	uint8_t post[16];
 	/* model: the arguments that produced the header */
-	struct { uint8_t phase /* 0 virgin, 1 filled, 2 initialised */, fill, fmt_i, pad; int32_t rate, ch; uint32_t frames; } m;
+	struct { uint8_t phase /* 0 virgin, 1 filled, 2 initialised */, fill /* phase 1 only */, fmt_i, pad; int32_t rate, ch; uint32_t frames; } m;
 } L;
 
-static uint64_t skip_init_unfit, skip_frames_unfit, skip_frames_uninit, skip_other, skip_tier;
+static uint64_t skip_init_unfit, skip_frames_unfit, skip_frames_uninit, skip_other, skip_tier, hdrlen_unknown, fmt_helper_differs;
 static int replaying;
 static uint64_t n_op_fill, n_op_init[NFMT], n_op_frames[FR_KINDS], n_oracle;
-static vx_set seen_enc;
-static uint8_t *big_end;		/* one past a 128-byte encode buffer ending at a PROT_NONE page */
+static vx_set seen_enc, seen_hdrlen;
+static uint8_t *c13_dec_end;		/* one past a C13_ENCCAP-byte area for exactly-sized decode inputs, ending at a PROT_NONE page */
+static uint8_t *c13_enc_end;		/* one past a C13_ENCCAP-byte encode buffer ending at a PROT_NONE page */
 
-static unsigned bytes_of(int fi) { return fi == 0 ? 2 : 4; }
-static unsigned hdr_of(int fi) { return fi == 2 ? 58 : 44; }	/* 12 + (8+16|18) [+ 12 fact] + 8 */
+static unsigned c13_width(int fi) { return fi == 0 ? 2 : 4; }	/* sample width in bytes: the meaning of the format argument */
+/* the number of bytes the real encoder emits for the live header (the data size does not enter it); 0 = the encoder
+ * faults or answers nonsense, which the oracle reports when the state is judged */
+static unsigned c13_hdrlen(void)
+{
+	rf_wavheader_t tmp = L.h; int el = -1;
+	if (VX_TRY) { el = rf_wavheader_encode(&tmp, c13_enc_end - C13_ENCCAP, C13_ENCCAP); VX_END; } else { VX_END; el = -1; }
+	if (el < 12 || el > C13_ENCCAP) { hdrlen_unknown++; return 0; }
+	return (unsigned)el;
+}
 static int fits_init(int rate, int ch, int fi)
 {
-	uint64_t ba = (uint64_t)ch * bytes_of(fi);
+	uint64_t ba = (uint64_t)ch * c13_width(fi);
 	return ba <= 0xffff && (uint64_t)rate * ba <= 0xffffffffULL;
 }
-static uint64_t block_of(void) { return (uint64_t)L.m.ch * bytes_of(L.m.fmt_i); }
+static uint64_t block_of(void) { return (uint64_t)L.m.ch * c13_width(L.m.fmt_i); }
+/* the header bytes that follow the RIFF size field; when the encoder gives no usable answer the smallest header of the
+ * format (RF_WAVHEADER_MIN_SIZE) stands in so that the frame counts stay defined */
+static uint64_t tail_of(void) { unsigned l = c13_hdrlen(); return (l ? l : RF_WAVHEADER_MIN_SIZE) - 8; }
 static int fits_frames(uint64_t n)
 {
 	uint64_t d = n * block_of();
-	return n <= 0xffffffffULL && d <= 0xffffffffULL && hdr_of(L.m.fmt_i) - 8 + d <= 0xffffffffULL;
+	return n <= 0xffffffffULL && d <= 0xffffffffULL && tail_of() + d <= 0xffffffffULL;
 }
-static uint64_t max_fit(void) { return (0xffffffffULL - (hdr_of(L.m.fmt_i) - 8)) / block_of(); }
+static uint64_t max_fit(void) { return (0xffffffffULL - tail_of()) / block_of(); }
 static uint64_t frames_of(int k)
 {
 	switch (k) {
 	case FR_0: return 0; case FR_1: return 1; case FR_2: return 2; case FR_1000: return 1000;
-	case FR_3: return 3; case FR_65535: return 65535; case FR_65536: return 65536;
+	case FR_3: return 3; case FR_65535: return 65535; case FR_65536: return 65536; case FR_65537: return 65537;
+	case FR_255: return 255; case FR_256: return 256; case FR_257: return 257;
+	case FR_2P24: return 16777216; case FR_2P24_1: return 16777217;
 	case FR_MAXFIT: return max_fit();
 	case FR_MAXFIT_1: return max_fit() - 1;
 	default: return max_fit() + 1;
@@ -112,7 +139,7 @@ static int op_enabled(int op)
 	if (op < OP_FRAMES0) {
 		int r, c, f; init_args(op, &r, &c, &f);
 		if ((r >= QRATE || c >= QCH) && !vx_thorough() && !replaying) { skip_tier++; return 0; }
-		if (!fits_init(rates[r], chans[c], f)) { skip_init_unfit++; return 0; }
+		if (!fits_init(c13_rates[r], c13_chans[c], f)) { skip_init_unfit++; return 0; }
 		return 1;
 	}
 	if (op - OP_FRAMES0 >= QFR && !vx_thorough() && !replaying) { skip_tier++; return 0; }
@@ -122,9 +149,9 @@ static int op_enabled(int op)
 }
 static void op_describe(int op, vx_sb *sb)
 {
-	if (op < NFILL) vx_sb_printf(sb, "fill(0x%02x)", fills[op]);
-	else if (op < OP_FRAMES0) { int r, c, f; init_args(op, &r, &c, &f); vx_sb_printf(sb, "init(%d,%d,%s)", rates[r], chans[c], fmtname[f]); }
-	else vx_sb_printf(sb, "set_num_frames(%s)", frname[op - OP_FRAMES0]);
+	if (op < NFILL) vx_sb_printf(sb, "fill(0x%02x)", c13_fills[op]);
+	else if (op < OP_FRAMES0) { int r, c, f; init_args(op, &r, &c, &f); vx_sb_printf(sb, "init(%d,%d,%s)", c13_rates[r], c13_chans[c], c13_fmtname[f]); }
+	else vx_sb_printf(sb, "set_num_frames(%s)", c13_frname[op - OP_FRAMES0]);
 }
 
 __attribute__((format(printf, 2, 3)))
@@ -134,54 +161,89 @@ static void c13_fail(const char *key, const char *fmt_, ...)
 	va_list ap; va_start(ap, fmt_); char *m = vx_vfmt(fmt_, ap); va_end(ap);
 	vx_bfs_history(vx_bfs_cur, &hist, &rep);
 	w_report(key, hist.s, rep.s, "%s -- after history [%s]; model: format=%s channels=%d rate=%d frames=%u", m, hist.s,
-		 fmtname[L.m.fmt_i], L.m.ch, L.m.rate, L.m.frames);
+		 c13_fmtname[L.m.fmt_i], L.m.ch, L.m.rate, L.m.frames);
 	free(m); free(hist.s); free(rep.s);
 }
 
-static const struct { const char *name; size_t off, size; } hfields[] = {
-#define F(x) { #x, offsetof(rf_wavheader_t, x), sizeof(((rf_wavheader_t *)0)->x) }
-	F(chunk_id), F(chunk_size), F(format), F(fmt_chunk_id), F(fmt_chunk_size), F(audio_format), F(num_channels),
-	F(sample_rate), F(byte_rate), F(block_align), F(bits_per_sample), F(cb_size), F(valid_bits_per_sample),
-	F(channel_mask), F(sub_format), F(fact_chunk_id), F(fact_chunk_size), F(sample_length), F(data_chunk_id),
-	F(data_chunk_size),
-#undef F
+/* the members the harness can name (for readable messages); whatever else the structure holds is compared as bytes */
+static const struct { const char *name; size_t off, size; } c13_hfields[] = {
+#define C13_F(x) { #x, offsetof(rf_wavheader_t, x), sizeof(((rf_wavheader_t *)0)->x) }
+	C13_F(chunk_id), C13_F(chunk_size), C13_F(format), C13_F(fmt_chunk_id), C13_F(fmt_chunk_size), C13_F(audio_format), C13_F(num_channels),
+	C13_F(sample_rate), C13_F(byte_rate), C13_F(block_align), C13_F(bits_per_sample), C13_F(cb_size), C13_F(valid_bits_per_sample),
+	C13_F(channel_mask), C13_F(sub_format), C13_F(fact_chunk_id), C13_F(fact_chunk_size), C13_F(sample_length), C13_F(data_chunk_id),
+	C13_F(data_chunk_size),
+#undef C13_F
 };
+#define C13_NHF (sizeof(c13_hfields) / sizeof(c13_hfields[0]))
+#if defined(__has_builtin)
+#if __has_builtin(__builtin_clear_padding)
+#define C13_CLEAR_PADDING(p) __builtin_clear_padding(p)
+#endif
+#endif
+#ifndef C13_CLEAR_PADDING
+#define C13_CLEAR_PADDING(p) ((void)0)	/* this compiler cannot tell padding from members: every byte is compared */
+#endif
+
+/* "an identical structure": every named member, then every remaining byte of the structure that is not padding (a member
+ * added to the structure later is not known here by name but is compared all the same). Names of the differing members go
+ * to diff ('+'-separated), a description of the first one to first. */
+static void c13_struct_diff(const rf_wavheader_t *a, const rf_wavheader_t *b, vx_sb *diff, char *first, size_t nfirst)
+{
+	static uint8_t named[sizeof(rf_wavheader_t)];
+	rf_wavheader_t ca = *a, cb = *b;
+	memset(named, 0, sizeof(named));
+	for (unsigned i = 0; i < C13_NHF; i++) {
+		memset(named + c13_hfields[i].off, 1, c13_hfields[i].size);
+		if (memcmp((const uint8_t *)a + c13_hfields[i].off, (const uint8_t *)b + c13_hfields[i].off, c13_hfields[i].size)) {
+			if (!diff->n) {
+				uint32_t x = 0, y = 0;
+				memcpy(&x, (const uint8_t *)a + c13_hfields[i].off, c13_hfields[i].size < 4 ? c13_hfields[i].size : 4);
+				memcpy(&y, (const uint8_t *)b + c13_hfields[i].off, c13_hfields[i].size < 4 ? c13_hfields[i].size : 4);
+				snprintf(first, nfirst, "%s is 0x%x in the header and 0x%x after decode(encode())", c13_hfields[i].name, x, y);
+			}
+			vx_sb_printf(diff, "%s%s", diff->n ? "+" : "", c13_hfields[i].name);
+		}
+	}
+	C13_CLEAR_PADDING(&ca); C13_CLEAR_PADDING(&cb);
+	for (size_t o = 0; o < sizeof(rf_wavheader_t); o++)
+		if (!named[o] && ((const uint8_t *)&ca)[o] != ((const uint8_t *)&cb)[o]) {
+			if (!diff->n) snprintf(first, nfirst, "the byte at offset %zu of the structure, which belongs to none of the %u members known by name, is 0x%02x in the header and 0x%02x after decode(encode())",
+					       o, (unsigned)C13_NHF, ((const uint8_t *)&ca)[o], ((const uint8_t *)&cb)[o]);
+			vx_sb_printf(diff, "%sunnamed-member", diff->n ? "+" : "");
+			break;
+		}
+}
 
 /* the oracle of the statement on the live state; violations are recorded, never returned */
 static void check_state(void)
 {
-	rf_wavheader_t *h = &L.h;
+	const rf_wavheader_t snap = L.h;	/* the header as init / set_num_frames left it: what the statement speaks about */
+	const rf_wavheader_t *h = &snap;
+	rf_wavheader_t obs;			/* the copy handed to functions that take a non-const pointer */
 	n_oracle++;
 
 	/* the header validates */
-	int v = rf_wavheader_validate(h);
+	obs = snap;
+	int v = rf_wavheader_validate(&obs);
 	if (v != 0) c13_fail("validate", "rf_wavheader_validate() = %d on a header produced by init/set_num_frames "
 			     "(chunk_size=%u fmt_chunk_size=%u fact_chunk_size=%u)", v, h->chunk_size, h->fmt_chunk_size, h->fact_chunk_size);
 
 	/* encoding then decoding returns an identical structure and the same length */
-	uint8_t *big = big_end - 128;
-	memset(big, 0xee, 128);
-	int el = rf_wavheader_encode(h, big, 128);
+	uint8_t *big = c13_enc_end - C13_ENCCAP;
+	memset(big, 0xee, C13_ENCCAP);
+	obs = snap;
+	int el = rf_wavheader_encode(&obs, big, C13_ENCCAP);
 	int dl = -1;
-	if (el < 0 || el > 128) c13_fail("encode-length", "rf_wavheader_encode() into 128 bytes = %d", el);
+	if (el < 0 || el > C13_ENCCAP) c13_fail("encode-length", "rf_wavheader_encode() into %d bytes = %d", C13_ENCCAP, el);
 	else {
-		const uint8_t *p = w_right_end - el;
-		memcpy((uint8_t *)p, big, (size_t)el);
+		uint8_t *p = c13_dec_end - el;	/* exactly el bytes, the last one against a PROT_NONE page */
+		memcpy(p, big, (size_t)el);
 		memset(w_wh, 0xa5, sizeof(*w_wh));
 		dl = rf_wavheader_decode(p, (unsigned)el, w_wh);
 		if (dl != el) c13_fail("roundtrip-length", "encode() = %d bytes but decode() of exactly those bytes = %d", el, dl);
 		else {
-			vx_sb diff = { 0 }; char first[160] = "";
-			for (unsigned i = 0; i < sizeof(hfields) / sizeof(hfields[0]); i++)
-				if (memcmp((uint8_t *)h + hfields[i].off, (uint8_t *)w_wh + hfields[i].off, hfields[i].size)) {
-					if (!diff.n) {
-						uint32_t a = 0, b = 0;
-						memcpy(&a, (uint8_t *)h + hfields[i].off, hfields[i].size < 4 ? hfields[i].size : 4);
-						memcpy(&b, (uint8_t *)w_wh + hfields[i].off, hfields[i].size < 4 ? hfields[i].size : 4);
-						snprintf(first, sizeof(first), "%s is 0x%x in the header and 0x%x after decode(encode())", hfields[i].name, a, b);
-					}
-					vx_sb_printf(&diff, "%s%s", diff.n ? "+" : "", hfields[i].name);
-				}
+			vx_sb diff = { 0 }; char first[240] = "";
+			c13_struct_diff(h, w_wh, &diff, first, sizeof(first));
 			if (diff.n) {
 				char key[600]; snprintf(key, sizeof(key), "roundtrip-field|%.*s", (int)strcspn(diff.s, "+"), diff.s);
 				c13_fail(key, "decode(encode(h)) differs from h in %s (%s)", diff.s, first);
@@ -191,6 +253,7 @@ static void check_state(void)
 		vx_hasher hs; vx_h_init(&hs); vx_h_bytes(&hs, big, (size_t)el); vx_h_u64(&hs, (uint64_t)el); vx_h_u64(&hs, (uint64_t)(int64_t)v);
 		vx_h_u64(&hs, (uint64_t)(int64_t)dl);
 		vx_set_add(&seen_enc, vx_h_done(&hs));
+		vx_h_init(&hs); vx_h_u64(&hs, (uint64_t)el); vx_set_add(&seen_hdrlen, vx_h_done(&hs));
 
 		/* the RIFF chunk size equals the number of bytes that follow it in a file carrying exactly the declared data */
 		uint64_t want = (uint64_t)el - 8 + h->data_chunk_size;
@@ -207,24 +270,24 @@ static void check_state(void)
 			 (unsigned long long)L.m.frames * h->block_align);
 
 	/* block alignment, byte rate and bits per sample follow from channel count, sample width and rate */
-	unsigned by = bytes_of(L.m.fmt_i);
+	unsigned by = c13_width(L.m.fmt_i);
 	if (h->num_channels != (unsigned)L.m.ch) c13_fail("describe|num_channels", "num_channels = %u", h->num_channels);
 	if (h->sample_rate != (uint32_t)L.m.rate) c13_fail("describe|sample_rate", "sample_rate = %u", h->sample_rate);
 	if (h->block_align != (unsigned)L.m.ch * by) c13_fail("describe|block_align", "block_align = %u, channels * sample width = %u", h->block_align, (unsigned)L.m.ch * by);
 	if ((uint64_t)h->byte_rate != (uint64_t)L.m.rate * (uint64_t)L.m.ch * by)
 		c13_fail("describe|byte_rate", "byte_rate = %u, rate * channels * sample width = %llu", h->byte_rate, (unsigned long long)L.m.rate * (unsigned long long)L.m.ch * by);
 	if (h->bits_per_sample != 8 * by) c13_fail("describe|bits_per_sample", "bits_per_sample = %u, sample width is %u bytes", h->bits_per_sample, by);
-	if (rf_wavheader_get_format(h) != fmts[L.m.fmt_i])
-		c13_fail("describe|format", "rf_wavheader_get_format() = %d, initialised as %s (audio_format=%u bits=%u)", (int)rf_wavheader_get_format(h),
-			 fmtname[L.m.fmt_i], h->audio_format, h->bits_per_sample);
+	/* what rf_wavheader_get_format makes of the header is not part of the statement: counted, not judged */
+	obs = snap;
+	if (rf_wavheader_get_format(&obs) != c13_fmts[L.m.fmt_i]) fmt_helper_differs++;
 }
 
 static int op_apply(int op)
 {
 	if (op < NFILL) {
 		n_op_fill++;
-		memset(&L.h, fills[op], sizeof(L.h));
-		L.m.phase = 1; L.m.fill = fills[op];
+		memset(&L.h, c13_fills[op], sizeof(L.h));
+		L.m.phase = 1; L.m.fill = c13_fills[op];
 		return 0;
 	}
 	if (!(VX_TRY)) {
@@ -236,8 +299,8 @@ static int op_apply(int op)
 	if (op < OP_FRAMES0) {
 		int r, c, f; init_args(op, &r, &c, &f);
 		n_op_init[f]++;
-		rf_wavheader_init(&L.h, rates[r], chans[c], fmts[f]);
-		L.m.phase = 2; L.m.fmt_i = (uint8_t)f; L.m.rate = rates[r]; L.m.ch = chans[c]; L.m.frames = 0;
+		rf_wavheader_init(&L.h, c13_rates[r], c13_chans[c], c13_fmts[f]);
+		L.m.phase = 2; L.m.fill = 0; L.m.fmt_i = (uint8_t)f; L.m.rate = c13_rates[r]; L.m.ch = c13_chans[c]; L.m.frames = 0;
 	} else {
 		uint64_t n = frames_of(op - OP_FRAMES0);
 		n_op_frames[op - OP_FRAMES0]++;
@@ -267,9 +330,11 @@ int main(int argc, char **argv)
 	vx_init(argc, argv);
 	vx_install_handlers();
 	vx_watchdog(2.0);
+	__fsetlocking(stdout, FSETLOCKING_BYCALLER); __fsetlocking(stderr, FSETLOCKING_BYCALLER);
 	w_setup_guards();
-	big_end = (uint8_t *)vx_guard_alloc(128, 1) + 128;
-	vx_set_init(&seen_enc, 16);
+	c13_enc_end = (uint8_t *)vx_guard_alloc(C13_ENCCAP, 1) + C13_ENCCAP;
+	c13_dec_end = (uint8_t *)vx_guard_alloc(C13_ENCCAP, 1) + C13_ENCCAP;
+	vx_set_init(&seen_enc, 16); vx_set_init(&seen_hdrlen, 4);
 	vx_bfs b = { .live = &L, .size = sizeof(L), .nops = NOPS, .enabled = op_enabled, .apply = op_apply,
 		     .canon = op_canon, .describe = op_describe, .name = "mutators" };
 	setup();
@@ -286,20 +351,30 @@ int main(int argc, char **argv)
 	vx_count("states", b.states); vx_count("transitions", b.transitions);
 	vx_count("traces", n_oracle);		/* transitions whose resulting header went through the whole oracle */
 	vx_count("bfs_distinct_observations", seen_enc.n);	/* distinct (encoded bytes, length, validate, decode length) */
+	vx_count("bfs_distinct_encoded_header_lengths", seen_hdrlen.n);
 	vx_and("exhaustive", b.fixpoint);
 	vx_max("bfs_depth", (uint64_t)b.depth_done);
 	vx_count("scope_guard_init_does_not_fit", skip_init_unfit);
 	vx_count("scope_guard_frames_do_not_fit", skip_frames_unfit);
 	vx_count("scope_guard_set_num_frames_before_init", skip_frames_uninit);
+	vx_count("scope_guard_header_length_unknown_minimum_used", hdrlen_unknown);
+	vx_count("get_format_differs_from_init_argument_not_judged", fmt_helper_differs);
 	vx_count("alphabet_entries_reserved_for_thorough_tier", skip_tier);
 	vx_count("op_fill", n_op_fill);
-	for (int f = 0; f < NFMT; f++) { char nm[64]; snprintf(nm, sizeof(nm), "op_init_%s", fmtname[f]); vx_count(nm, n_op_init[f]); }
-	for (int k = 0; k < FR_KINDS; k++) { char nm[64]; snprintf(nm, sizeof(nm), "op_set_num_frames_%s", frname[k]); vx_count(nm, n_op_frames[k]); }
-	if (b.capped) vx_note("BFS stopped early (deadline, state cap or 16 distinct violation signatures): complete only to depth %d", b.depth_done);
-	/* samples: the deepest history and one from the middle of the store */
-	for (int k = 0; k < 2; k++) {
+	for (int f = 0; f < NFMT; f++) { char nm[64]; snprintf(nm, sizeof(nm), "op_init_%s", c13_fmtname[f]); vx_count(nm, n_op_init[f]); }
+	for (int k = 0; k < FR_KINDS; k++) { char nm[64]; snprintf(nm, sizeof(nm), "op_set_num_frames_%s", c13_frname[k]); vx_count(nm, n_op_frames[k]); }
+	if (b.capped) vx_note("BFS stopped early (deadline, state cap, 3 endless loops or 16 distinct violation signatures): complete only to depth %d", b.depth_done);
+	/* samples: the deepest history, one from the middle of the store, and the first state reached with a rate above 2^24 */
+	for (int k = 0; k < 3; k++) {
 		vx_sb hs = { 0 }; static uint32_t ops[64];
-		uint64_t idx = k ? b.st.n / 2 : b.st.n - 1;
+		uint64_t idx = k == 1 ? b.st.n / 2 : b.st.n - 1;
+		if (k == 2) {
+			for (idx = 0; idx < b.st.n; idx++) {
+				const struct c13_live *s = (const struct c13_live *)(b.st.data + idx * b.st.ssz);
+				if (s->m.phase == 2 && s->m.rate > (1 << 24) && s->m.frames) break;
+			}
+			if (idx >= b.st.n) break;
+		}
 		int n = vx_store_trace(&b.st, idx, ops, 64);
 		for (int i = 0; i < n; i++) { if (i) vx_sb_printf(&hs, "; "); op_describe((int)ops[i], &hs); }
 		vx_sample("mutator graph: %llu states, %llu transitions, fixpoint=%d, depth %d; history of state %llu: %s",
@@ -311,18 +386,18 @@ int main(int argc, char **argv)
 	 * require the identical state image; vacuity - every live alphabet entry was exercised */
 	w_silent = 1;
 	for (uint64_t k = 0; k < 64 && k < b.st.n; k++) {
-		static uint32_t ops[64]; static struct live want;
+		static uint32_t ops[64]; static struct c13_live want;
 		uint64_t idx = b.st.n * k / 64;
 		int n = vx_store_trace(&b.st, idx, ops, 64);
 		memcpy(&want, b.st.data + idx * b.st.ssz, sizeof(want));	/* the live part of the stored state */
-		setup(); b.cur = 0;
+		setup(); vx_lib_reset(); b.cur = 0;
 		for (int i = 0; i < n; i++) { b.cur_op = (int)ops[i]; op_apply((int)ops[i]); }
 		if (memcmp(&want, &L, sizeof(L))) { fprintf(stderr, "c13: re-executing the history of state %llu gives a different state\n", (unsigned long long)idx); return 6; }
 	}
 	w_silent = 0;
-	for (int f = 0; f < NFMT; f++) if (!n_op_init[f]) { fprintf(stderr, "c13: init(%s) never exercised\n", fmtname[f]); return 7; }
+	for (int f = 0; f < NFMT; f++) if (!n_op_init[f]) { fprintf(stderr, "c13: init(%s) never exercised\n", c13_fmtname[f]); return 7; }
 	for (int k = 0; k < (vx_thorough() ? FR_KINDS : QFR); k++)
-		if (k != FR_OVER && !n_op_frames[k]) { fprintf(stderr, "c13: set_num_frames(%s) never exercised\n", frname[k]); return 7; }
+		if (k != FR_OVER && !n_op_frames[k]) { fprintf(stderr, "c13: set_num_frames(%s) never exercised\n", c13_frname[k]); return 7; }
 	vx_bfs_free(&b);
 	vx_finish();
 	return 0;
@@ -333,7 +408,7 @@ int main(int argc, char **argv)
 
 static vx_set seen_inputs;
 static int replaying, slen, maxdev;
-static uint64_t sample_ctr, sample_next = 1;
+static int sampled, owns_template;	/* one sample per worker: the template it owns, else its first multi-deviation case / a big header */
 static char *cur_rp;
 static const char *case_rp(const w_case *c) { if (!cur_rp) cur_rp = w_case_replay(c); return cur_rp; }
 static const char *hexof(const uint8_t *b, int n)
@@ -348,15 +423,18 @@ static const char *hexof(const uint8_t *b, int n)
 static void c13d_case(const w_case *c)
 {
 	char ct[400], key[400];
+	if (w_hang_abort) return;
 	free(cur_rp); cur_rp = NULL;
 	W_COUNT("cases", 1);
-	for (int t = c->tmin; t <= c->n; t++) {
+	/* prefixes that end at or before the last deviating field are inputs of the case without that deviation */
+	for (int t = (c->tdup + 1 > c->tmin ? c->tdup + 1 : c->tmin); t <= c->n && !w_hang_abort; t++) {
 		int ret = 0, eret = 0;
 		W_COUNT("evaluations", 1);
 		const uint8_t *p = w_place(c->buf, t, 1);
 		memset(w_wh, 0xa5, sizeof(*w_wh));
+		vx_lib_reset();
 		if (VX_TRY) { ret = rf_wavheader_decode(p, (unsigned)t, w_wh); VX_END; }
-		else { VX_END; W_COUNT("decode_faults_left_to_C14", 1); continue; }
+		else { VX_END; w_after_fault(); W_COUNT("decode_faults_left_to_C14", 1); continue; }
 		if (!(ret >= 0 && ret <= t)) { W_COUNT("not_accepted", 1); continue; }
 		W_COUNT("accepted_and_reencoded", 1);
 		if (ret < RF_WAVHEADER_MIN_SIZE) W_COUNT("accepted_below_44_bytes", 1);
@@ -380,12 +458,12 @@ static void c13d_case(const w_case *c)
 		memset(q, 0xee, (size_t)ret);
 		if (VX_TRY) { eret = rf_wavheader_encode(w_wh, q, (unsigned)ret); VX_END; }
 		else {
-			VX_END;
+			VX_END; w_after_fault();
 			snprintf(key, sizeof(key), "reencode-fault|%s", vx_fault_msg);
 			w_report(key, ct, case_rp(c), "rf_wavheader_encode faults (%s) on the structure decoded from %s", vx_fault_msg, hexof(c->buf, t));
 			continue;
 		}
-		if (!w_silent && !replaying && t == c->n && c->tmpl >= 0 && vx_want_sample() && ++sample_ctr == sample_next && (sample_next = sample_next * 4 + 1))
+		if (!w_silent && !replaying && t == c->n && c->tmpl >= 0 && !sampled && (c->nd == 0 || (c->nd >= 2 && !(vx_args.worker & 1) && !owns_template)) && (sampled = 1))
 			vx_sample("%s sz=%d: decode = %d, re-encode into %d bytes = %d, %llu ignored extension bytes normalised", c->desc, t, ret, ret, eret,
 				  (unsigned long long)nskip);
 		if (eret != ret) {
@@ -415,8 +493,9 @@ static void c13d_big(const w_bigcase *c)
 	snprintf(ct, sizeof(ct), "big-header|fmt-extension=%u", c->ext);	/* coarse: the workers see different cb/af/fact/trail first */
 	W_COUNT("evaluations", 1); W_COUNT("big_headers", 1);
 	memset(w_wh, 0xa5, sizeof(*w_wh));
+	vx_lib_reset();
 	if (VX_TRY) { ret = rf_wavheader_decode(p, (unsigned)t, w_wh); VX_END; }
-	else { VX_END; W_COUNT("decode_faults_left_to_C14", 1); free(rp); return; }
+	else { VX_END; w_after_fault(); W_COUNT("decode_faults_left_to_C14", 1); free(rp); return; }
 	if (!(ret >= 0 && (uint64_t)ret <= t)) { W_COUNT("not_accepted", 1); W_COUNT("big_headers_not_accepted", 1); free(rp); return; }
 	W_COUNT("accepted_and_reencoded", 1); W_COUNT("big_headers_accepted", 1);
 	if (!w_silent && !replaying) {
@@ -429,12 +508,12 @@ static void c13d_big(const w_bigcase *c)
 	memset(q, 0xee, (size_t)ret);
 	if (VX_TRY) { eret = rf_wavheader_encode(w_wh, q, (unsigned)ret); VX_END; }
 	else {
-		VX_END;
+		VX_END; w_after_fault();
 		snprintf(key, sizeof(key), "reencode-fault|%s", vx_fault_msg);
 		w_report(key, ct, rp, "rf_wavheader_encode faults (%s) on the structure decoded from a %llu-byte header with a %u-byte fmt extension", vx_fault_msg, (unsigned long long)t, c->ext);
 		free(rp); return;
 	}
-	if (!w_silent && !replaying && vx_want_sample() && c->ext >= 65536 && c->cb == 0 && c->af == 0xfffe && !c->trail)
+	if (!w_silent && !replaying && !sampled && (vx_args.worker & 1) && c->ext >= 65536 && (sampled = 1))
 		vx_sample("%s cb=%u af=%u fact=%d: %llu bytes, decode = %d, re-encode into %d bytes = %d, %llu ignored extension bytes normalised", ct, c->cb, c->af, c->fact, (unsigned long long)t, ret, ret, eret,
 			  (unsigned long long)ref.skip_len);
 	if (eret != ret)
@@ -453,6 +532,7 @@ int main(int argc, char **argv)
 	vx_init(argc, argv);
 	vx_install_handlers();
 	vx_watchdog(2.0);
+	__fsetlocking(stdout, FSETLOCKING_BYCALLER); __fsetlocking(stderr, FSETLOCKING_BYCALLER);
 	w_setup_templates();
 	w_setup_guards();
 	slen = vx_thorough() ? 3 : 2;
@@ -468,6 +548,7 @@ int main(int argc, char **argv)
 		return 0;
 	}
 	vx_set_init(&seen_inputs, 16);
+	for (int t = 0; t < w_ntmpl; t++) if (vx_mine((uint64_t)t)) owns_template = 1;
 	w_silent = 1;
 	w_enum_strings(0, c13d_case, 0); w_enum_strings(1, c13d_case, 0);
 	w_enum_headers(0, c13d_case, 0); w_enum_headers(1, c13d_case, 0);
@@ -481,10 +562,12 @@ int main(int argc, char **argv)
 		w_big_get(i, &bc); c13d_big(&bc);
 		if (vx_deadline_passed()) w_stop = 1;
 	}
+	w_hang_epilogue();
 	vx_and("exhaustive", !w_stop);
+	vx_count("decode_first_header_templates", (uint64_t)(vx_args.worker == 0 ? w_ntmpl : 0));
 	vx_min("decode_first_string_length_bound_completed", (uint64_t)(done_len < 0 ? 0 : done_len));
 	vx_min("decode_first_deviation_bound_completed", (uint64_t)(done_dev < 0 ? 0 : done_dev));
-	if (w_stop) vx_note("decode-first: deadline reached before the stated corpus was enumerated; see *_bound_completed");
+	if (w_stop && !w_hang_abort) vx_note("decode-first: deadline reached before the stated corpus was enumerated; see *_bound_completed");
 	vx_finish();
 	return 0;
 }
